@@ -306,7 +306,7 @@ class Emit:
     # ---- imperative bodies (loops with mutable vectors): state-passing translation
     def lhs_name(self, x):
         """the Lean variable a mutable place is translated to: a local, or a field path listed in `fieldpath`"""
-        while x[0] == "mcall" and x[2] in self.cfg.get("lockmethods", ()) and not x[3]:
+        while x[0] == "mcall" and x[2] in self.cfg.get("lockmethods", ()) and (not x[3] or x[2] == "expect"):
             x = x[1]                                      # `self.store.write().unwrap()`: the place behind the lock
         if x[0] == "mcall" and x[1] == ("path", ["self"]) and not x[3] and x[2] in self.cfg.get("placemethods", {}):
             return self.cfg["placemethods"][x[2]]         # `self.get_main_store_mut()`: an accessor that hands out the place
@@ -376,7 +376,9 @@ class Emit:
                         add(self.eff_recv(r[1]))
                     elif r[0] in ("if", "iflet", "match", "block"):
                         walk_value(r)
-                declared |= self.pvars(s[1])
+                if not (self.cfg.get("lockmethods") and s[2][0] == "mcall" and s[2][2] in self.cfg["lockmethods"] and s[1][0] == "pvar"
+                        and self.lhs_name(s[2]) == ident(s[1][1])):      # `let mut g = g.write().unwrap();`: still the shared place
+                    declared |= self.pvars(s[1])
             else:
                 x = s[1]
                 if self.cfg.get("value_effects") and x[0] == "mcall" and x[2] in ("unwrap", "expect") and x[1][0] == "mcall" \
@@ -461,7 +463,7 @@ class Emit:
             v = self.eff_recv(s[2][1])                       # `let x = self.m(args);` for a total `&mut self` method with a value: `(state', value)`
             args = [v] + [self.atom(a) for a in s[2][3]]
             return "let (%s, %s) := (%s);\n    %s" % (v, self.pat(s[1]), self.cfg["effmethods"][s[2][2]][0].format(*args), tailstr())
-        if s[0] == "let" and self.cfg.get("value_effects") and s[2][0] in ("if", "iflet", "match") and self.assigned([("let", ("pwild",), s[2])]):
+        if s[0] == "let" and self.cfg.get("value_effects") and s[2][0] in ("if", "iflet", "match", "block") and self.assigned([("let", ("pwild",), s[2])]):
             w = self.assigned([("let", ("pwild",), s[2])])
             if self.cfg.get("unwrap_panics"):                # the branches may panic: they yield `some (value, w…)` or `none`
                 return "(match %s with\n    | some %s => (%s)\n    | none => none)" % (
@@ -1495,6 +1497,27 @@ APPLY += [
          optmut={"add_track": "addTrack {0} {1}", "merge_external": "mergeExternal {0} {1} {2}", "add_observation": "addVotingObs {0} {4}"}),
 ]
 
+# ---- the same loop in the voting threads of the batch trackers: an id is drawn for every candidate (C01)
+BATCH_SNIP = r"let mut res = Vec::default\(\);.*?(?=let res = channel\.send)"
+BATCH_PRESUB = [(r"let mut track_id = track_id\.write\(\)\.unwrap\(\);\s*\*track_id \+= 1;\s*\*track_id\b", "let mut ctr = ctr.write().unwrap(); *ctr += 1; *ctr"),
+                (r"\bstore(\s*)\.(write|read)\(\)", r"db\1.\2()")]
+APPLY += [
+    dict(group="Apply", name="batch_sort_apply_winners", file="trackers/sort/batch_api.rs", impl=None, fn="voting_thread", snippet=BATCH_SNIP, presub=BATCH_PRESUB,
+         imperative=True, unwrap_panics=True, value_effects=True, result="some (ctr, db, res)", sig=APPLY_SIG,
+         lockmethods=("read", "write", "unwrap", "expect"),
+         method={"get_track_id": "trackId {0}", "get": "mapGet {0} {1}", "get_store": "shardOf {0} {1}"}, cast={"usize": "{0}", "u64": "{0}"},
+         call={"Vec::default": "[]", "SortTrack::from": "recOf {0}", "Some": "some {0}"},
+         mutmethods={"set_track_id": "setTrackId {0} {1}"},
+         optmut={"add_track": "addTrack {0} {1}", "merge_external": "mergeExternal {0} {1} {2}"}),
+    dict(group="Apply", name="batch_visual_apply_winners", file="trackers/visual_sort/batch_api.rs", impl=None, fn="voting_thread", snippet=BATCH_SNIP, presub=BATCH_PRESUB,
+         imperative=True, unwrap_panics=True, value_effects=True, result="some (ctr, db, res)", sig=APPLY_V_SIG,
+         lockmethods=("read", "write", "unwrap", "expect"),
+         method={"get_track_id": "trackId {0}", "get": "mapGet {0} {1}", "get_store": "shardOf {0} {1}", "clone": "cloneT {0}"}, cast={"usize": "{0}", "u64": "{0}"},
+         call={"Vec::default": "[]", "SortTrack::from": "recOf {0}", "Some": "some {0}", "VisualAttributesUpdate::new_voting_type": "{0}"},
+         path={"None": "none"}, mutmethods={"set_track_id": "setTrackId {0} {1}"},
+         optmut={"add_track": "addTrack {0} {1}", "merge_external": "mergeExternal {0} {1} {2}", "add_observation": "addVotingObs {0} {4}"}),
+]
+
 IDLE = [
     dict(group="Idle", name="idle_lookup_" + nm, file=f, impl=impl, fn="lookup",
          sig="(epochs : Option (List (Nat × Nat))) (maxIdle : Nat) (self : Nat) (attr_scene attr_last : Nat) : Bool",
@@ -1621,7 +1644,12 @@ def gen(repo, cfgs, header, footer):
                 ms = re.search(c["snippet"], btxt, re.S)
                 if not ms:
                     raise Unsupported("the statement to translate was not found")
-                params, body = [], parse_block("{" + ms.group(0) + "}")
+                stxt = ms.group(0)
+                for rx, rp in c.get("presub", ()):            # renamings stated in the configuration (a later local shadows a shared place's name)
+                    stxt, nsub = re.subn(rx, rp, stxt)
+                    if nsub == 0:
+                        raise Unsupported("renaming pattern not found: " + rx)
+                params, body = [], parse_block("{" + stxt + "}")
             else:
                 params, body = parse_fn(text, c["fn"], c.get("impl"), c.get("occurrence", 0))
             if "dims_from" in c:                          # `pub const DIM: usize = N;`  and  `DIM_X2 = DIM * 2`
